@@ -7,9 +7,19 @@ package main
 // nested list of plain / capped / bounded-overdraft sources in one asset, the same account at non-adjacent places), "allot" (one send
 // of a likely large amount through portions: fractional percents, denominators up to 10^4, totals at / one unit under / over 100 %),
 // "save-receive" (an account is saved from, then receives, then another account pays); the rest is the general generator.
+// Two further shapes replace about one program in nine; their choices come from a side stream of the program's own generator, so the
+// other programs of a seed are what they were without them: "window" (one send through portions: amounts in the window where
+// amount x reduced numerator crosses 2^63 with portions whose reduced numerator is > 1, and percentages with zeros right after the
+// decimal point — as literals, portion variables and portions read from metadata — on the destination or on the source side, payers
+// that can pay) and "rebind" (an `asset $cur` variable is the asset of monetary literals in send amounts, caps, overdrafts,
+// metadata values and saves).  Every program whose variables can take other values also carries "vars2" (/ "ameta2"): a second
+// variable map (stored metadata) for the SAME text — assets, accounts, monetaries, numbers, portions switched.
 //
-// input : {"text":…, "ast":{"vars":[…],"stmts":[…]}, "vars":{name:raw}, "meta":{k:v}, "bal":[[acct,asset,int]…], "ameta":[[acct,key,val]…]}
+// input : {"text":…, "ast":{"vars":[…],"stmts":[…]}, "vars":{name:raw}, "meta":{k:v}, "bal":[[acct,asset,int]…], "ameta":[[acct,key,val]…],
+//          "vars2":{name:raw}?, "ameta2":[[acct,key,val]…]?}
 // output: {"err":class,"stage":…} | {"postings":[[src,dst,amt,asset]…],"txmeta":{…},"ameta":{acct:{…}},"lockR":[…],"lockW":[…],"bal":[[a,s,v]…]}
+//         + "unstable":outcome of the 2nd run when it differs; with vars2/ameta2: + "rebind":{"ok":…,"varies":…} and, when the compiled
+//         program that has already run does not behave like a fresh compilation of the text, "remembers":{"run":k,"cached":…,"fresh":…}
 
 import (
 	"context"
@@ -55,6 +65,7 @@ type nsGen struct {
 	wide  bool            // portions: fractional percents, large denominators, totals next to 100 % are likely
 	rich  map[string]bool // accounts whose balance must cover the amounts of the program (balance table)
 	pos   map[string]bool // "account asset" pairs that should hold a positive balance
+	avar  int             // per-cent probability that an asset is named through an asset variable when one exists (0 = the default 25)
 }
 
 func (g *nsGen) wrong() bool { return g.bad > 0 && g.r.n(1000) < g.bad }
@@ -114,7 +125,11 @@ func (g *nsGen) acctExpr(pool []string) J {
 }
 
 func (g *nsGen) assetExpr() J {
-	if vs := g.varsOf("asset"); len(vs) > 0 && g.r.p(25) {
+	avar := 25
+	if g.avar > 0 {
+		avar = g.avar
+	}
+	if vs := g.varsOf("asset"); len(vs) > 0 && g.r.p(avar) {
 		return lit("var", vs[g.r.n(len(vs))].name)
 	}
 	if g.wrong() {
@@ -609,6 +624,338 @@ func (g *nsGen) saveThenReceiveProgram(depth int) []any {
 	return stmts
 }
 
+// ---- "window": one send through portions where the arithmetic of the shares is delicate
+
+type nsPct struct{ t, n, d string } // text as written, and its value n/d spelt out here (never through the code under test)
+
+var nsRem = nsPct{t: "remaining"}
+
+// splits with a reduced numerator > 1 (20 % leaves 4/5 to `remaining`): amount x numerator crosses 2^63 for the amounts below
+var nsSplits = [][]nsPct{
+	{{"20%", "20", "100"}, nsRem},
+	{{"15.5%", "155", "1000"}, nsRem},
+	{{"2/3", "2", "3"}, {"1/3", "1", "3"}},
+	{{"2.9%", "29", "1000"}, nsRem},
+	{{"30%", "30", "100"}, {"70%", "70", "100"}},
+	{{"1/3", "1", "3"}, nsRem},
+	{{"12.5%", "125", "1000"}, {"2.9%", "29", "1000"}, nsRem},
+	{{"3/7", "3", "7"}, {"4/7", "4", "7"}},
+}
+
+// percentages with zeros right after the decimal point
+var nsZeroPcts = []nsPct{{"2.05%", "205", "10000"}, {"0.05%", "5", "10000"}, {"10.01%", "1001", "10000"}, {"0.001%", "1", "100000"},
+	{"1.005%", "1005", "100000"}, {"99.09%", "9909", "10000"}, {"0.07%", "7", "10000"}, {"50.0025%", "500025", "1000000"}}
+
+// amounts below 2^63 whose product with a small numerator is not: 5e18, 8e18+1, 2^63-1, 2^62, 0.12 and 0.15 of an 18-decimals unit
+var nsWindowAmts = []string{"5000000000000000000", "8000000000000000001", "9223372036854775807", "4611686018427387904",
+	"120000000000000000", "150000000000000000"}
+
+func (g *nsGen) declare(decls *[]any, ty, name, value string, origin J) {
+	g.vars = append(g.vars, nsVar{ty: ty, name: name, origin: origin, value: value})
+	*decls = append(*decls, J{"ty": ty, "name": name, "origin": origin})
+}
+
+func (g *nsGen) distinctAccts(n int, pool []string) []string {
+	xs := append([]string{}, pool...)
+	for i := len(xs) - 1; i > 0; i-- {
+		j := g.r.n(i + 1)
+		xs[i], xs[j] = xs[j], xs[i]
+	}
+	return xs[:n]
+}
+
+func (g *nsGen) windowProgram() ([]any, []any) {
+	var decls []any
+	g.asset = "USD"
+	if g.r.p(20) {
+		g.asset = "COIN"
+	}
+	var split []nsPct
+	zero := g.r.p(50)
+	if zero {
+		z := nsZeroPcts[g.r.n(len(nsZeroPcts))]
+		split = []nsPct{z, nsRem}
+		if z.t != "99.09%" && g.r.p(30) {
+			split = []nsPct{z, nsZeroPcts[g.r.n(3)], nsRem}
+		}
+		if g.r.p(25) {
+			split[0], split[len(split)-1] = split[len(split)-1], split[0] // `remaining` first
+		}
+	} else {
+		split = append([]nsPct{}, nsSplits[g.r.n(len(nsSplits))]...)
+	}
+	amt := g.r.pick(nsWindowAmts)
+	if (zero && g.r.p(50)) || (!zero && g.r.p(12)) {
+		amt = g.r.pick([]string{"1000000", "1000000000", "123456789", "999999", "20000"})
+	}
+	g.note(amt)
+	// how each portion is carried: literal, portion variable of the request, portion variable read from metadata
+	ps := make([]J, len(split))
+	hasVar, hasRem := false, false
+	for i, e := range split {
+		switch {
+		case e.t == "remaining":
+			ps[i] = J{"k": "remaining"}
+			hasRem = true
+		case g.r.p(45) && (hasRem || i < len(split)-1): // without `remaining` the last entry stays a literal (it becomes `remaining` below)
+			name := fmt.Sprintf("p%d", i)
+			var origin J
+			if g.r.p(45) {
+				origin = J{"k": "meta", "acc": lit("acct", g.r.pick([]string{"cfg", "a", "c"})), "key": fmt.Sprintf("k%d", 5+i)}
+			}
+			g.declare(&decls, "portion", name, e.t, origin)
+			ps[i] = J{"k": "var", "v": name}
+			hasVar = true
+		default:
+			ps[i] = J{"k": "const", "n": e.n, "d": e.d, "t": e.t}
+		}
+	}
+	if hasVar && !hasRem { // a variable portion needs `remaining`: the last entry (a literal) becomes it, same value
+		ps[len(ps)-1] = J{"k": "remaining"}
+	}
+	payer := func(world bool) J {
+		switch x := g.r.n(100); {
+		case x < 30 && world:
+			return J{"k": "acct", "e": lit("acct", "world"), "od": nil}
+		case x < 50:
+			return J{"k": "acct", "e": lit("acct", g.r.pick(nsAccts)), "od": J{"k": "unbounded"}}
+		}
+		a := g.r.pick(nsAccts)
+		g.rich[a] = true
+		return J{"k": "acct", "e": lit("acct", a), "od": nil}
+	}
+	var src, dst J
+	if g.r.p(50) {
+		accts := g.distinctAccts(len(ps), append(append([]string{}, nsAccts...), "x", "y"))
+		var items []any
+		for i := range ps {
+			kd := J{"k": "to", "d": J{"k": "acct", "e": lit("acct", accts[i])}}
+			if g.r.p(5) {
+				kd = J{"k": "kept"}
+			}
+			items = append(items, J{"p": ps[i], "kd": kd})
+		}
+		src, dst = J{"k": "src", "s": payer(true)}, J{"k": "allot", "items": items}
+	} else {
+		accts := g.distinctAccts(len(ps), nsAccts)
+		var items []any
+		for i := range ps {
+			var s J
+			switch x := g.r.n(100); {
+			case x < 25:
+				s = J{"k": "acct", "e": lit("acct", accts[i]), "od": J{"k": "unbounded"}}
+			case x < 35 && i == len(ps)-1:
+				s = J{"k": "acct", "e": lit("acct", "world"), "od": nil}
+			case x < 45:
+				g.rich[accts[i]] = true
+				s = J{"k": "max", "cap": g.litMon(g.asset, amt), "s": J{"k": "acct", "e": lit("acct", accts[i]), "od": nil}}
+			default:
+				g.rich[accts[i]] = true
+				s = J{"k": "acct", "e": lit("acct", accts[i]), "od": nil}
+			}
+			items = append(items, J{"p": ps[i], "s": s})
+		}
+		src, dst = J{"k": "allot", "items": items}, J{"k": "acct", "e": lit("acct", g.r.pick([]string{"x", "y", "d", "e"}))}
+	}
+	stmts := []any{J{"k": "send", "amt": J{"k": "mon", "e": g.litMon(g.asset, amt)}, "src": src, "dst": dst, "destFirst": g.r.p(8)}}
+	if g.r.p(12) {
+		stmts = append(stmts, g.cheapStmt())
+	}
+	return decls, stmts
+}
+
+// ---- "rebind": the asset of monetary literals is a variable (`[$cur 100]`) in send amounts, caps, overdrafts, metadata values, saves
+
+func (g *nsGen) rebindProgram(depth int) ([]any, []any) {
+	var decls []any
+	assets := []string{"USD", "EUR", "COIN"}
+	g.declare(&decls, "asset", "cur", g.r.pick(assets), nil)
+	hasAcc, hasMon, hasNum := g.r.p(50), g.r.p(30), g.r.p(30)
+	if hasAcc {
+		g.declare(&decls, "account", "acc", g.r.pick(nsAccts), nil)
+	}
+	if hasMon {
+		g.declare(&decls, "monetary", "m", g.r.pick(assets)+" "+g.note(fmt.Sprint(1+g.r.n(80))), nil)
+	}
+	if hasNum {
+		g.declare(&decls, "number", "n", fmt.Sprint(g.r.n(50)), nil)
+	}
+	if g.r.p(15) {
+		g.declare(&decls, "portion", "p", g.r.pick([]string{"1/2", "10%", "2.05%", "1/3"}), nil)
+	}
+	for _, a := range nsAccts {
+		g.rich[a] = true
+	}
+	if g.r.p(40) { // the general generator, assets mostly through the variable
+		g.avar = 85
+		var stmts []any
+		for i, ns := 0, 1+g.r.n(3); i < ns; i++ {
+			stmts = append(stmts, g.stmt(1+g.r.n(depth), 1+g.r.n(depth)))
+		}
+		return decls, stmts
+	}
+	g.asset = "USD"
+	cur := lit("var", "cur")
+	mon := func(lo, span int) J { return J{"k": "mon", "asset": cur, "amt": g.note(fmt.Sprint(lo + g.r.n(span)))} }
+	acct := func() J {
+		if hasAcc && g.r.p(40) {
+			return lit("var", "acc")
+		}
+		return lit("acct", g.r.pick(nsAccts))
+	}
+	var amt J = mon(1, 200)
+	if hasMon && g.r.p(25) {
+		amt = lit("var", "m")
+	}
+	a := lit("acct", g.r.pick(nsAccts))
+	var s J
+	switch g.r.n(6) {
+	case 0:
+		s = J{"k": "acct", "e": lit("acct", "world"), "od": nil}
+	case 1:
+		s = J{"k": "acct", "e": a, "od": nil}
+	case 2:
+		s = J{"k": "acct", "e": a, "od": J{"k": "upto", "e": mon(0, 300)}}
+	case 3:
+		s = J{"k": "max", "cap": mon(0, 300), "s": J{"k": "acct", "e": a, "od": J{"k": "unbounded"}}}
+	case 4:
+		s = J{"k": "inorder", "ss": []any{J{"k": "max", "cap": mon(0, 60), "s": J{"k": "acct", "e": a, "od": nil}}, J{"k": "acct", "e": lit("acct", "world"), "od": nil}}}
+	default:
+		s = J{"k": "inorder", "ss": []any{J{"k": "acct", "e": a, "od": J{"k": "upto", "e": mon(0, 30)}}, J{"k": "acct", "e": lit("acct", "world"), "od": nil}}}
+	}
+	var d J
+	switch g.r.n(4) {
+	case 0, 1:
+		d = J{"k": "acct", "e": acct()}
+	case 2:
+		d = J{"k": "allot", "items": []any{
+			J{"p": J{"k": "const", "n": "10", "d": "100", "t": "10%"}, "kd": J{"k": "to", "d": J{"k": "acct", "e": lit("acct", "x")}}},
+			J{"p": J{"k": "remaining"}, "kd": J{"k": "to", "d": J{"k": "acct", "e": acct()}}}}}
+	default:
+		d = J{"k": "inorder", "caps": []any{J{"cap": mon(0, 40), "kd": J{"k": "to", "d": J{"k": "acct", "e": lit("acct", "x")}}}},
+			"rest": J{"k": "to", "d": J{"k": "acct", "e": acct()}}}
+	}
+	var send J
+	if g.r.p(12) {
+		send = J{"k": "send", "amt": J{"k": "all", "asset": cur}, "src": J{"k": "src", "s": J{"k": "acct", "e": a, "od": nil}}, "dst": d, "destFirst": false}
+	} else {
+		send = J{"k": "send", "amt": J{"k": "mon", "e": amt}, "src": J{"k": "src", "s": s}, "dst": d, "destFirst": g.r.p(8)}
+	}
+	stmts := []any{send}
+	if g.r.p(25) { // after the send, from its source account, in an asset named otherwise than the send's
+		stmts = append(stmts, J{"k": "saveAll", "asset": lit("asset", g.r.pick(assets)), "acc": a})
+	}
+	for i, n := 0, g.r.n(3); i < n; i++ {
+		switch g.r.n(6) {
+		case 0:
+			stmts = append(stmts, J{"k": "setTxMeta", "key": g.r.pick([]string{"k1", "k2", "note"}), "v": mon(0, 200)})
+		case 1:
+			stmts = append(stmts, J{"k": "setAccountMeta", "acc": acct(), "key": g.r.pick([]string{"m1", "m2"}), "v": mon(0, 200)})
+		case 2:
+			stmts = append([]any{J{"k": "saveMon", "e": mon(0, 40), "acc": a}}, stmts...)
+		case 3:
+			stmts = append([]any{J{"k": "saveAll", "asset": cur, "acc": lit("acct", g.r.pick(nsAccts))}}, stmts...)
+		case 4:
+			stmts = append(stmts, J{"k": "print", "e": mon(0, 9)})
+		default:
+			if hasNum {
+				stmts = append(stmts, J{"k": "setTxMeta", "key": "k2", "v": J{"k": "add", "l": lit("var", "n"), "r": lit("num", "1")}})
+			} else {
+				stmts = append(stmts, J{"k": "setTxMeta", "key": "k2", "v": cur})
+			}
+		}
+	}
+	return decls, stmts
+}
+
+// altValue: another legal value of the variable's type
+func altValue(r *rng, ty, cur string) string {
+	other := func(xs []string) string {
+		for try := 0; try < 20; try++ {
+			if x := r.pick(xs); x != cur {
+				return x
+			}
+		}
+		return cur
+	}
+	switch ty {
+	case "asset":
+		return other([]string{"USD", "EUR", "COIN"})
+	case "account":
+		return other(nsAccts)
+	case "monetary":
+		parts := strings.SplitN(cur, " ", 2)
+		n, ok := new(big.Int).SetString(parts[len(parts)-1], 10)
+		if len(parts) != 2 || !ok {
+			return cur
+		}
+		a := parts[0]
+		k := r.n(3)
+		if k != 1 {
+			for _, x := range []string{"EUR", "COIN", "USD"} {
+				if x != a {
+					a = x
+					break
+				}
+			}
+		}
+		if k != 0 {
+			n = new(big.Int).Add(n, big.NewInt(int64(1+r.n(7))))
+		}
+		return a + " " + n.String()
+	case "number":
+		n, ok := new(big.Int).SetString(cur, 10)
+		if !ok {
+			return cur
+		}
+		return new(big.Int).Add(n, big.NewInt(int64(1+r.n(5)))).String()
+	case "string":
+		return other([]string{"s", "hello world", "", "t"})
+	case "portion":
+		return other([]string{"1/2", "10%", "0%", "1/3", "12.5%", "2.05%", "0.05%", "1/4"})
+	}
+	return cur
+}
+
+// secondBinding: the variable map / stored metadata of the program with the values of its variables switched (nil, nil when nothing can be)
+func (g *nsGen) secondBinding(r *rng, vars J, ameta [][]string) (J, [][]string) {
+	vars2, changedV := J{}, false
+	for k, v := range vars {
+		vars2[k] = v
+	}
+	ameta2, changedM := [][]string{}, false
+	for _, t := range ameta {
+		ameta2 = append(ameta2, append([]string{}, t...))
+	}
+	for _, v := range g.vars {
+		switch {
+		case v.origin == nil:
+			if cur, ok := vars[v.name].(string); ok && cur == v.value && (!changedV || r.p(75)) {
+				if nv := altValue(r, v.ty, cur); nv != cur {
+					vars2[v.name] = nv
+					changedV = true
+				}
+			}
+		case v.origin["k"] == "meta":
+			for _, t := range ameta2 {
+				if t[1] == v.origin["key"].(string) && t[2] == v.value && r.p(50) {
+					if nv := altValue(r, v.ty, t[2]); nv != t[2] {
+						t[2] = nv
+						changedM = true
+					}
+				}
+			}
+		}
+	}
+	if !changedV {
+		vars2 = nil
+	}
+	if !changedM {
+		ameta2 = nil
+	}
+	return vars2, ameta2
+}
+
 func (g *nsGen) declareVars() []any {
 	var decls []any
 	n := 0
@@ -664,25 +1011,44 @@ func genNumscript(r *rng, n int, tier string, emit func(J)) {
 	}
 	for c := 0; c < n; c++ {
 		g := &nsGen{r: r.fork(), used: map[string]bool{}, asset: "USD", rich: map[string]bool{}, pos: map[string]bool{}}
+		// a side stream of this program's generator, taken without a draw: what is decided from it (the two shapes below, the second
+		// variable map) leaves the choices of the main stream — hence every other program of the seed — as they were
+		side := &rng{s: g.r.s ^ 0x5bd1e9955bd1e995}
+		side.next()
+		prof := ""
+		switch x := side.n(100); {
+		case x < 7:
+			prof = "window"
+		case x < 11:
+			prof = "rebind"
+		}
+		if prof != "" {
+			g.r = side.fork()
+		}
 		g.hot = g.r.pick(nsAccts)
-		if g.r.p(20) {
+		if prof == "" && g.r.p(20) {
 			g.bad = 15
 		}
-		prof := ""
-		switch x := g.r.n(100); {
-		case x < 11:
-			prof = "ordered"
-		case x < 25:
-			prof = "allot"
-		case x < 31:
-			prof = "save-receive"
+		if prof == "" {
+			switch x := g.r.n(100); {
+			case x < 11:
+				prof = "ordered"
+			case x < 25:
+				prof = "allot"
+			case x < 31:
+				prof = "save-receive"
+			}
 		}
 		var decls []any
-		if prof == "" || g.r.p(25) {
+		if prof == "" || (prof != "window" && prof != "rebind" && g.r.p(25)) {
 			decls = g.declareVars()
 		}
 		var stmts []any
 		switch prof {
+		case "window":
+			decls, stmts = g.windowProgram()
+		case "rebind":
+			decls, stmts = g.rebindProgram(depth)
 		case "ordered":
 			stmts = g.orderedProgram(depth)
 		case "allot":
@@ -795,7 +1161,16 @@ func genNumscript(r *rng, n int, tier string, emit func(J)) {
 				bal = append(bal, []string{a, s, b.String()})
 			}
 		}
-		emit(J{"text": printScript(ast), "ast": ast, "vars": vars, "meta": meta, "bal": bal, "ameta": ameta, "mut": g.bad > 0, "shape": prof})
+		cas := J{"text": printScript(ast), "ast": ast, "vars": vars, "meta": meta, "bal": bal, "ameta": ameta, "mut": g.bad > 0, "shape": prof}
+		if v2, m2 := g.secondBinding(side, vars, ameta); v2 != nil || m2 != nil {
+			if v2 != nil {
+				cas["vars2"] = v2
+			}
+			if m2 != nil {
+				cas["ameta2"] = m2
+			}
+		}
+		emit(cas)
 		// C02: one program in eight is followed by a variant of itself in which an account in source position is ALSO the
 		// value of a fresh account variable that is no source (a destination, a `save` / `set_account_meta` target).  Drawn
 		// from this program's own generator (a fork of the main one) AFTER the program is complete, so the base programs
@@ -1184,7 +1559,8 @@ func uniqSortedNoWorld(xs []string) []string {
 }
 
 // execNumscript compiles once and runs the SAME compiled program twice (C12: an execution leaves nothing behind
-// that changes a later one; C08: a cached program behaves like a fresh one).
+// that changes a later one; C08: a cached program behaves like a fresh one), then — when the case has a second variable
+// map — a third time on that map, against a fresh compilation of the text.
 func execNumscript(in J) J {
 	text, _ := in["text"].(string)
 	prog, err := compiler.Compile(text)
@@ -1198,6 +1574,44 @@ func execNumscript(in J) J {
 	b2, _ := json.Marshal(second)
 	if string(b1) != string(b2) {
 		first["unstable"] = second
+	}
+	// C08 / C12: a compiled program must not remember a run.  The SAME compiled program, which has now run twice, runs on the
+	// second variable map (stored metadata) of the case; a FRESH compilation of the same text on the same map says what that must
+	// give.  Then the used program goes back to the first map: it must repeat its first outcome.
+	_, hasV := in["vars2"]
+	_, hasM := in["ameta2"]
+	if hasV || hasM {
+		in2 := J{}
+		for k, v := range in {
+			in2[k] = v
+		}
+		if hasV {
+			in2["vars"] = in["vars2"]
+		}
+		if hasM {
+			in2["ameta"] = in["ameta2"]
+		}
+		third := safeExec(func(J) J { return runCompiled(prog, text, in2) }, in2)
+		fresh := safeExec(func(J) J {
+			p2, err := compiler.Compile(text)
+			if err != nil {
+				return J{"err": "compile_error", "stage": "compile"}
+			}
+			return runCompiled(p2, text, in2)
+		}, in2)
+		fourth := safeExec(func(J) J { return runCompiled(prog, text, in) }, in)
+		b3, _ := json.Marshal(third)
+		bf, _ := json.Marshal(fresh)
+		b4, _ := json.Marshal(fourth)
+		_, ok := fresh["postings"]
+		first["rebind"] = J{"ok": ok, "varies": string(bf) != string(b1)}
+		if string(b3) != string(bf) {
+			first["remembers"] = J{"run": 3, "on": "second variable map", "cached": third, "fresh": fresh}
+		} else if string(b4) != string(b1) {
+			var f1 any
+			json.Unmarshal(b1, &f1)
+			first["remembers"] = J{"run": 4, "on": "first variable map again", "cached": fourth, "fresh": f1}
+		}
 	}
 	return first
 }
